@@ -35,25 +35,30 @@ fn step(f_cur: f64, f_cand: f64, t: f64, seed: u64, third: bool) -> u8 {
 
 // @native-harness
 pub fn c17_native_metropolis_grid() {
-    let values = [-3.0, -1.0, 0.0, 0.5, 1.0, 2.0, 1.0e6, f64::INFINITY];
-    let temps = [1.0e-9, 0.01, 1.0, 100.0, 1.0e12];
+    let values = [-3.0, -1.0, 0.0, 0.5, 1.0, 1.0 + f64::EPSILON, 1.0 + 1.0e-9, 2.0, 1.0e6, f64::INFINITY];
+    let temps = [1.0e-300, 1.0e-20, 1.0e-9, 0.01, 1.0, 100.0, 1.0e12, 1.0e300];
     let mut n = 0u64;
     for &f_cur in &values {
         for &f_cand in &values {
-            if f_cur.is_infinite() && f_cand.is_infinite() { continue; } // inf - inf: objective arithmetic is the C09 known finding
             for &t in &temps {
                 for seed in 0..25u64 {
                     for third in [false, true] {
                         let tag = step(f_cur, f_cand, t, seed, third);
                         n += 1;
-                        // "a candidate at least as good as the current solution always replaces it"
+                        // "a candidate at least as good as the current solution always replaces it" (two infinite values are equally good)
                         if f_cand <= f_cur && tag != 2 {
                             eprintln!("COUNTEREXAMPLE f_cur={f_cur} f_cand={f_cand} T={t} seed={seed} third={third}: an at-least-as-good candidate was rejected");
                             panic!("Metropolis rule violated");
                         }
-                        // "never as T approaches zero": a candidate worse by >= 0.5 at T = 1e-9 has acceptance probability exp(-5e8) = 0
-                        if f_cand >= f_cur + 0.5 && t == 1.0e-9 && tag != 1 {
-                            eprintln!("COUNTEREXAMPLE f_cur={f_cur} f_cand={f_cand} T={t} seed={seed}: a worse candidate was accepted at T ~ 0");
+                        // "never as T approaches zero": exp(-x) is exactly 0.0 in f64 for x > 746, so a candidate worse by more than
+                        // 750 T has acceptance probability 0 whatever the draw
+                        if f_cand > f_cur && (f_cand - f_cur) / t > 750.0 && tag != 1 {
+                            eprintln!("COUNTEREXAMPLE f_cur={f_cur} f_cand={f_cand} T={t} seed={seed}: a worse candidate was accepted although exp(-(f_cand - f_cur) / T) = 0");
+                            panic!("Metropolis rule violated");
+                        }
+                        // "always as T grows without bound": exp(-x) is exactly 1.0 in f64 for 0 <= x < 1e-17, and the draw lies in [0, 1)
+                        if f_cand > f_cur && (f_cand - f_cur) / t < 1.0e-17 && tag != 2 {
+                            eprintln!("COUNTEREXAMPLE f_cur={f_cur} f_cand={f_cand} T={t} seed={seed}: a worse candidate was rejected although exp(-(f_cand - f_cur) / T) = 1");
                             panic!("Metropolis rule violated");
                         }
                     }
@@ -62,4 +67,25 @@ pub fn c17_native_metropolis_grid() {
         }
     }
     println!("c17_native_metropolis_grid: {} acceptance steps checked", n);
+}
+
+// "a worse candidate replaces it with probability exp(-(f(candidate) - f(current)) / T)": acceptance frequencies over 4000 fixed
+// seeds compared with the stated probability under a wide tolerance (+-0.05 absolute: more than six standard deviations)
+// @native-harness
+pub fn c17_native_acceptance_frequency() {
+    let mut cells = 0u64;
+    for &(f_cur, delta, t) in &[(0.0, 0.1, 1.0), (0.0, 0.7, 1.0), (0.0, 2.3, 1.0), (5.0, 0.07, 0.1), (5.0, 0.23, 0.1), (-2.0, 70.0, 100.0),
+                                (-2.0, 300.0, 100.0), (1.0e6, 1.0, 4.0), (0.0, 1.0e-12, 1.0e-12), (0.0, 3.0e-12, 1.0e-12), (0.0, 4.0, 1.0)] {
+        let p: f64 = (-(delta / t) as f64).exp();
+        let trials = 4000u64;
+        let mut accepted = 0u64;
+        for seed in 0..trials { if step(f_cur, f_cur + delta, t, 1000 + seed, false) == 2 { accepted += 1; } }
+        let freq = accepted as f64 / trials as f64;
+        cells += 1;
+        if (freq - p).abs() > 0.05 {
+            eprintln!("COUNTEREXAMPLE f_cur={f_cur} f_cand={} T={t}: a worse candidate was accepted in {accepted} of {trials} runs ({freq}), stated probability exp(-{delta}/{t}) = {p}", f_cur + delta);
+            panic!("acceptance frequency differs from the stated probability");
+        }
+    }
+    println!("c17_native_acceptance_frequency: {} (margin, temperature) cells x 4000 seeds", cells);
 }
